@@ -93,6 +93,7 @@ func init() {
 		})}
 	}
 	extraChecks["C13"] = func(p *Program, tier string) []*FuncReport { return []*FuncReport{runParamsWriterCheck(p)} }
+	extraChecks["C12"] = func(p *Program, tier string) []*FuncReport { return []*FuncReport{runArgOrderCheck(p, "C12")} }
 	extraChecks["C11"] = func(p *Program, tier string) []*FuncReport {
 		return []*FuncReport{runEffectCheck(p, "determinism", map[string]bool{EffTime: true, EffRand: true, EffMapRange: true, EffGo: true, EffGlobalW: true}, custom)}
 	}
